@@ -132,10 +132,10 @@ theorem variableIdentifier_spec (h : PostV c0 c) (hn : Fits (k + 2) c0 n) :
   · exact Holds.pure ⟨rfl, by intro _ _ hl; cases hl⟩
 
 /-- a loop that only checks the types of already indexed values -/
-theorem checkLoop_spec (h : PostV c0 c) {vt : ValueTypes} (hvt : AllIn c0 vt)
-    (f : Range × Option Ty → PUnit → IxM (ForInStep PUnit))
+theorem checkLoop_spec {β : Type} {init : β} (h : PostV c0 c) {vt : ValueTypes} (hvt : AllIn c0 vt)
+    (f : Range × Option Ty → β → IxM (ForInStep β))
     (hf : ∀ x, RangeIn c0 x.1 → ∀ b c1, PostV c0 c1 → Holds (f x b) c1 (fun s c2 => PostV c0 c2)) :
-    Holds (forIn vt PUnit.unit f) c (fun _ c' => PostV c0 c') :=
+    Holds (forIn vt init f) c (fun _ c' => PostV c0 c') :=
   Holds.forIn_mem (fun _ c' => PostV c0 c') h (fun x hx b c1 h1 => hf x (hvt x hx) b c1 h1)
 
 
@@ -407,6 +407,9 @@ macro "bang_leaf" : tactic => `(tactic| repeat (first
   | (refine Holds.bind (error_specV (by assumption) (by bang_rng) _) ?_
      intro _ _ _)
   | exact error_specV (by assumption) (by bang_rng) _
+  | (refine Holds.bind (withSM_spec _) ?_
+     rintro _ _ ⟨hcc, _⟩
+     subst hcc)
   | split))
 
 /-- the body of the type-checking loops: `let some typ := typ | continue; if !ok then error ..` -/
